@@ -2,7 +2,7 @@
 Hand-written executable model of the PYTHON GLUE of `compmech/panel/_panel.py`:
 
     Panel._rebuild, Panel.get_size, check_c, Panel._get_lam_F (which matrix, which entries are zeroed),
-    Panel.calc_k0, Panel.calc_kG0, Panel.calc_kM, Panel.calc_kA, Panel.calc_cA
+    Panel.calc_k0, Panel.calc_kG0, Panel.calc_kT, Panel.calc_kM, Panel.calc_kA, Panel.calc_cA, Panel.calc_fint
 
 i.e. everything between the user's panel definition and the compiled kernels: WHICH kernel of
 `modelDB.db[model]['matrices' / 'matrices_num']` is called with WHICH scalar arguments in which order, what the panel
@@ -135,6 +135,8 @@ structure Args (K : Type) where
 
 inductive KName where
   | fk0 | fk0y1y2 | fkG0 | fkG0y1y2 | fkM | fkMy1y2 | fkAx | fkAy | fcA | fkL_num | fkG_num
+  /-- `matrices_num.calc_fint(c, Fnxny, panel, size, col0, nx, ny)`: returns a VECTOR (typed memoryview) -/
+  | calc_fint
 deriving DecidableEq, Repr
 
 /-- one positional (or the keyword `NLgeom=`) argument of a kernel call -/
@@ -237,13 +239,30 @@ inductive Err where
   | noKernel
   /-- RuntimeError `lam object is None!` -/
   | lamNone
+  /-- ValueError `… is not a valid model option` (`calc_fint`: `self.model` is `None` or no key of `modelDB.db`) -/
+  | fintModel
+  /-- ValueError `matrices_num not implemented for model …` (`calc_fint` on a model without a numerical module) -/
+  | fintNoNum
+  /-- ValueError `calc_fint not implemented for model …` (a numerical module without `calc_fint`: none in `modelDB`) -/
+  | fintNoKernel
+  /-- TypeError: `calc_fint()` called without its required positional argument `c` -/
+  | cMissing
+  /-- ValueError `Buffer has wrong number of dimensions`: raised at the ENTRY of the compiled `calc_fint(double [:] cs, …)` -
+  `Panel.calc_fint` itself does not call `check_c` -/
+  | cBufferNdim
+  /-- ValueError `Invalid shape for Finput!`: first statement of the compiled `calc_fint` on `np.asarray(None)`, i.e. when no
+  `Fnxny` was passed and `self.F` is still `None` -/
+  | finputShape
+  /-- ValueError `dimension mismatch`: `finalize_symmetric_matrix(kG0_cte).dot(c)` with `len(c) != size` -/
+  | dotMismatch
 deriving DecidableEq, Repr
 
 /-- the Python exception class -/
 def Err.pyType : Err → String
   | .rebuildModel | .rebuildStack | .rebuildLaminaprop | .rebuildPlyt | .cNdim | .cSize | .muMissing | .machNone
-  | .machBelowOne | .flowInvalid => "ValueError"
-  | .cNotArray | .modelNoneIn => "TypeError"
+  | .machBelowOne | .flowInvalid | .fintModel | .fintNoNum | .fintNoKernel | .cBufferNdim | .finputShape
+  | .dotMismatch => "ValueError"
+  | .cNotArray | .modelNoneIn | .cMissing => "TypeError"
   | .stripK0State | .stripKGState | .conical => "NotImplementedError"
   | .noNumModule | .noModel => "KeyError"
   | .noSizeAttr | .noKernel => "AttributeError"
@@ -476,6 +495,68 @@ def calcKT (P : Panel K) (A : Args K) : Outcome K :=
     | ⟨P2, .ok R2⟩ =>
       ⟨P2, .ok { calls := R1.calls ++ R2.calls, comb := .add R1.comb (R2.comb.shift R1.calls.length), store := .kT,
                  lamOffset := R1.lamOffset }⟩
+
+/-! ## `calc_fint`
+
+`Panel.calc_fint(c, size=None, col0=0, silent, nx=None, ny=None, Fnxny=None, inc=None)`.  Unlike `calc_k0 / calc_kG0` it neither
+calls `_rebuild` nor `check_c` nor rebuilds the laminate: it validates the MODEL itself (three `ValueError`s), refreshes `size`
+(only when not passed), `alpharad`, `r`, hands `c` (made contiguous - a list is converted), `Fnxny` or else the attribute `self.F`
+AS IT IS (`None` before the first `calc_k0`; `lamSet` stands for "`self.lam` and `self.F` are set": the glue only ever sets them
+together), the panel, `size, col0` and `nx, ny` (argument, else `self.nx, self.ny`) to `matrices_num.calc_fint`, and - exactly under the
+guard of `calc_k0` (`k0Prestress`: some `N*_cte` is a number different from 0) - adds
+`finalize_symmetric_matrix(fkG0[y1y2](…N_cte…, self, size, col0, col0)).dot(c)`; the method has no `row0`, the pre-stress matrix is placed
+at `(col0, col0)`.  The strip bounds are NOT looked at for the force kernel (no `NotImplementedError` as in `calc_k0(c=…)`); `finalize`,
+`row0`, `NLgeom` of `Args` do not exist for this method and are ignored.  Nothing is stored on the panel. -/
+
+/-- `getattr(matrices_num, 'calc_fint', None) is not None`: both numerical modules of `modelDB` define it -/
+def ModelKind.hasFint (k : ModelKind) : Bool := k.hasNum
+
+/-- the returned VECTOR in terms of the kernel results -/
+structure VResult (K : Type) where
+  /-- call 0: the internal-force kernel; call 1, if present: the initial-stress kernel of the constant pre-load -/
+  calls : List (KCall K)
+  /-- `true`: the method returns the ndarray `np.asarray(call 0) + finalize_symmetric_matrix(call 1).dot(c)`;
+  `false`: it returns what the kernel returned (a typed memoryview), untouched -/
+  prestress : Bool
+deriving Repr
+
+/-- the state the call leaves behind + the vector or exception -/
+structure VOutcome (K : Type) where
+  post : Panel K
+  res : Except Err (VResult K)
+
+/-- the vector `calc_fint` returns when `kernV` says what the force kernel returned, `kern` what the matrix kernels returned and
+`c` is the caller's Ritz vector -/
+def VResult.eval (kernV : KCall K → List K) (kern : KCall K → Coo K) (c : List K) (R : VResult K) : List K :=
+  match R.calls with
+  | [f] => kernV f
+  | [f, g] => (List.range (kernV f).length).map fun i => (kernV f).getD i 0 + mulVecAt (finalize (kern g)) c i
+  | _ => []
+
+def calcFint (P : Panel K) (A : Args K) : VOutcome K :=
+  match A.c with
+  | none => ⟨P, .error .cMissing⟩
+  | some cv =>
+    match P.model with
+    | .unset | .invalid => ⟨P, .error .fintModel⟩
+    | .kind k =>
+      if !k.hasNum then ⟨P, .error .fintNoNum⟩
+      else if !k.hasFint then ⟨P, .error .fintNoKernel⟩
+      else
+        let (P1, size) := resolveSize k P A.size
+        let P2 := refreshGeom P1
+        -- entry of the compiled function: typed-memoryview conversion of `c`, then the shape test of `Finput`
+        if 1 < cv.ndim then ⟨P2, .error .cBufferNdim⟩
+        else if !A.fnxny && !P2.lamSet then ⟨P2, .error .finputShape⟩
+        else
+          let f := mkCall P2 true .calc_fint
+            [.cGiven, if A.fnxny then .fGiven else .fOwn, .panel, .nat size, .nat (A.col0.getD 0),
+             .nat (A.nx.getD P2.nx), .nat (A.ny.getD P2.ny)]
+          -- the pre-stress kernel call of `calc_k0`, placed at `(col0, col0)`
+          let pre := k0Prestress P2 { A with row0 := A.col0 } size
+          if pre.isEmpty then ⟨P2, .ok { calls := [f], prestress := false }⟩
+          else if cv.len ≠ size then ⟨P2, .error .dotMismatch⟩
+          else ⟨P2, .ok { calls := f :: pre, prestress := true }⟩
 
 /-! ## `calc_kM` -/
 
